@@ -1,5 +1,6 @@
 import Driver.Util
 import Slock.Model.Queue
+import Driver.Queue2
 /-! Driver commands for the internal queues (C20).
 
   queue <kind> <baseNodeSize> <nodeSize> <queueSize> <op>;<op>;…      → <obs>;<obs>;…
@@ -12,6 +13,7 @@ kinds `lmq` `lq` `lcq` (LockManagerQueue / LockQueue / LockCommandQueue — one 
   st → internal fields
 kind `long` (LongWaitLockQueue + restructuringLong*Queue of db.go):
   push:<id> pop remove:<id> restr len iter st
+kinds `ring` `prio` `holder` `wait` (lock.go containers): see Driver/Queue2.lean.
 A panic prints `panic` and ends the line (the harness discards the instance too).
 -/
 namespace Driver
@@ -127,7 +129,7 @@ def handleQueue : List String → Option String
       | .ok q => some (";".intercalate (qRun qLongStep { q := q, lockCount := 0, freeCount := 0, idx := [] } ops []))
       | .panic => some "panic"
       | .unmodelled => some "unmodelled"
-    else none
+    else handleQueue2 ("queue" :: kind :: toString b :: toString n :: toString s :: rest)
   | _ => none
 
 end Driver
